@@ -664,7 +664,7 @@ theorem getB_window (data : List UInt8) (w : Nat) (a b : Int) (hs : 0 ≤ a) (he
 /-- the window is what `Wav.getFrames` returns for the same times on the recording loaded in memory — for ALL times
 (negative, reversed or beyond the end included: both classes clamp the index into the recording) -/
 theorem window_eq_getFrames (den : Nat) (f : WavFile) (s e : Int) :
-    cwindow den f (s, e) = Wav.getFrames ⟨f.width, f.rate, f.data⟩ ⟨s, den⟩ ⟨e, den⟩ := by
+    cwindow den f (s, e) = Wav.getFramesRaw ⟨f.width, f.rate, f.data⟩ ⟨s, den⟩ ⟨e, den⟩ := by
   have h1 := read_window den f s e
   rw [C16.query_eq_wav] at h1
   exact (Except.ok.inj h1).symm
@@ -1618,35 +1618,55 @@ theorem sine_length (den rate width : Nat) (vals : Nat → Int) (d : Int) (bs : 
 
 /-! ## 11. `extractSubwav` -/
 
+/-- over a common positive denominator the order of two times is the order of their numerators -/
+theorem lt_common (den : Nat) (hden : 0 < den) (e s : Int) : ((⟨e, den⟩ : QTime) < ⟨s, den⟩) ↔ e < s := by
+  show e * (den : Int) < s * (den : Int) ↔ e < s
+  constructor
+  · intro h; exact Int.lt_of_mul_lt_mul_right h (by omega)
+  · intro h; exact Int.mul_lt_mul_of_pos_right h (by omega)
+
 /-- **extractSubwav writes the source's parameters and exactly the window of the source** — for EVERY pair of times
-(a reversed pair: an empty file; a time outside the recording: clamped to its first / last frame) -/
-theorem extract_spec (den : Nat) (f : WavFile) (s e : Int) :
+`s ≤ e` (a time outside the recording: clamped to its first / last frame); the other pairs: `extract_reversed` -/
+theorem extract_spec (den : Nat) (f : WavFile) (s e : Int) (h : ¬ (⟨e, den⟩ : QTime) < ⟨s, den⟩) :
     extractSubwav f ⟨s, den⟩ ⟨e, den⟩ = .ok ⟨f.width, f.rate, cwindow den f (s, e)⟩ := by
   unfold extractSubwav QueryWav.getFrames
   simp only [Option.getD_some]
-  rw [read_window den f s e]
+  rw [if_neg h, read_window den f s e]
   rfl
+
+/-- **a reversed pair of times is rejected and nothing is written** (`ArgumentError` from `QueryWav.getFrames`,
+commit 0a07868; it used to write an empty file) -/
+theorem extract_reversed (f : WavFile) (s e : QTime) (h : e < s) : extractSubwav f s e = .error .ArgumentError := by
+  unfold extractSubwav QueryWav.getFrames
+  simp only [Option.getD_some]
+  rw [if_pos h]
 
 /-- … in particular a start outside the recording no longer raises `wave.Error` (`setpos`): a start before the
 recording extracts from its first frame, a start beyond it extracts an empty file -/
-theorem extract_outside (den : Nat) (f : WavFile) (s e : Int) :
+theorem extract_outside (den : Nat) (f : WavFile) (s e : Int) (h : ¬ (⟨e, den⟩ : QTime) < ⟨s, den⟩) :
     (samplesIn den f.rate s ≤ 0 →
       extractSubwav f ⟨s, den⟩ ⟨e, den⟩ = .ok ⟨f.width, f.rate, f.data.take (cidx den f e * f.width)⟩) ∧
     ((f.nframes : Int) ≤ samplesIn den f.rate s → extractSubwav f ⟨s, den⟩ ⟨e, den⟩ = .ok ⟨f.width, f.rate, []⟩) := by
   unfold extractSubwav QueryWav.getFrames
   simp only [Option.getD_some]
+  rw [if_neg h]
   constructor
-  · intro h; rw [(read_window_outside den f s e).1 h]; rfl
-  · intro h; rw [(read_window_outside den f s e).2 h]; rfl
+  · intro h'; rw [(read_window_outside den f s e).1 h']; rfl
+  · intro h'; rw [(read_window_outside den f s e).2 h']; rfl
 
-/-- the file-backed path (QueryWav) and the in-memory path (`Wav.getSubwav`) extract the same frames — for ANY two
-times (each with its own denominator) -/
+/-- the file-backed path (QueryWav) and the in-memory path (`Wav.getSubwav`) extract the same frames, or raise the
+same `ArgumentError` — for ANY two times (each with its own denominator) -/
 theorem extract_eq_getSubwav (f : WavFile) (s e : QTime) :
-    extractSubwav f s e = .ok ⟨f.width, f.rate, (Wav.getSubwav ⟨f.width, f.rate, f.data⟩ s e).frames⟩ := by
-  unfold extractSubwav QueryWav.getFrames
+    extractSubwav f s e =
+      match Wav.getSubwav ⟨f.width, f.rate, f.data⟩ s e with
+      | .ok w => .ok ⟨f.width, f.rate, w.frames⟩
+      | .error err => .error err := by
+  unfold extractSubwav QueryWav.getFrames Wav.getSubwav Wav.getFrames
   simp only [Option.getD_some]
-  rw [C16.query_eq_wav f s e]
-  rfl
+  by_cases h : e < s
+  · rw [if_pos h, if_pos h]
+  · rw [if_neg h, if_neg h, C16.query_eq_wav f s e]
+    rfl
 
 
 /-! ## 12. `splitAudioOnTier`: one output per entry, names, frames, cropped TextGrids -/
@@ -1829,7 +1849,9 @@ theorem split_frames (den : Nat) (f : WavFile) (g : Tg Int) (stem : String) (fla
     have hw : o.wav = ⟨f.width, f.rate, cwindow den f (iv.s, iv.e)⟩ := by
       unfold QueryWav.getFrames at h2
       simp only [Option.getD_some] at h2
-      rw [read_window den f iv.s iv.e] at h2
+      by_cases hrev : (⟨iv.e, den⟩ : QTime) < ⟨iv.s, den⟩
+      · rw [if_pos hrev] at h2; cases h2
+      rw [if_neg hrev, read_window den f iv.s iv.e] at h2
       have hd := Except.ok.inj h2
       cases hwav : o.wav with
       | mk w r d =>
@@ -1843,10 +1865,11 @@ theorem split_frames (den : Nat) (f : WavFile) (g : Tg Int) (stem : String) (fla
 /-- reading the audio of an entry never stops the loop: whatever the entry's times, `QueryWav.getFrames` returns the
 (clamped) window — before the repair 300c9d2 an entry that started outside the recording raised the `wave.Error` of
 `setpos` after the files of the earlier entries had been written -/
-theorem split_entry_outside (den : Nat) (f : WavFile) (iv : Iv Int) :
+theorem split_entry_outside (den : Nat) (f : WavFile) (iv : Iv Int) (h : ¬ (⟨iv.e, den⟩ : QTime) < ⟨iv.s, den⟩) :
     QueryWav.getFrames f (some ⟨iv.s, den⟩) (some ⟨iv.e, den⟩) = .ok (cwindow den f (iv.s, iv.e)) := by
   unfold QueryWav.getFrames
   simp only [Option.getD_some]
+  rw [if_neg h]
   exact read_window den f iv.s iv.e
 
 /-! ### the cropped TextGrids -/
